@@ -114,3 +114,125 @@ Proof.
   destruct (sim_run me _ _ d w (sim_set_auto_retries me delay count) Hme _ _ _ E) as (d1 & w1 & E1 & _ & Hcv & Hf & _).
   exists d1, w1. repeat split; assumption.
 Qed.
+
+(* ---- data_rate = 1 | 2 | 250: RF_SETUP bits 5 and 3 (RF_DR_LOW, RF_DR_HIGH) := 00 | 01 | 10, every other bit of
+   the register (PA level, LNA, PLL_LOCK, CONT_WAVE) as it was; any other value: ValueError, nothing written ---- *)
+Definition rate_bits (speed : Z) : Z := if speed =? 1 then 0 else if speed =? 2 then 8 else 32.
+Definition rate_value (n : N) (speed : Z) : N :=
+  N.land (Z.to_N (Z.lor (Z.land (Z.of_N n) 215) (rate_bits speed))) 191.
+
+Lemma rate_bits_in speed : (speed = 1 \/ speed = 2 \/ speed = 250) -> In (rate_bits speed) [0; 8; 32].
+Proof. intros [->|[->| ->]]; cbn; auto. Qed.
+
+Lemma rate_x_range n speed : (speed = 1 \/ speed = 2 \/ speed = 250) ->
+  0 <= Z.lor (Z.land (Z.of_N n) 215) (rate_bits speed) <= 255.
+Proof.
+  intros Hs. rewrite (land_byte (Z.of_N n) 215) by lia.
+  assert (Hm : 0 <= Z.of_N n mod 256 <= 255) by (pose proof (Z.mod_pos_bound (Z.of_N n) 256 ltac:(lia)); lia).
+  pose proof (sweep_byte (fun v => forallb (fun s => (0 <=? Z.lor (Z.land v 215) s) && (Z.lor (Z.land v 215) s <=? 255)) [0; 8; 32])
+                         ltac:(vm_compute; reflexivity) _ Hm) as H.
+  cbv beta in H. rewrite forallb_forall in H. apply range_of_bool. apply H. apply rate_bits_in. exact Hs.
+Qed.
+
+(* the encoding, for every previous register content *)
+Lemma rate_value_bits n speed : (n < 256)%N -> (speed = 1 \/ speed = 2 \/ speed = 250) ->
+  N.land (rate_value n speed) 40 = Z.to_N (rate_bits speed)
+  /\ N.land (rate_value n speed) 151 = N.land n 151.
+Proof.
+  intros Hn Hs. unfold rate_value.
+  pose proof (sweep_byteN (fun n => forallb (fun s =>
+                 (N.land (N.land (Z.to_N (Z.lor (Z.land (Z.of_N n) 215) s)) 191) 40 =? Z.to_N s)%N
+                 && (N.land (N.land (Z.to_N (Z.lor (Z.land (Z.of_N n) 215) s)) 191) 151 =? N.land n 151)%N) [0; 8; 32])
+                          ltac:(vm_compute; reflexivity) n Hn) as H.
+  cbv beta in H. rewrite forallb_forall in H. specialize (H _ (rate_bits_in speed Hs)).
+  apply andb_true_iff in H. destruct H as [H1 H2]. apply N.eqb_eq in H1. apply N.eqb_eq in H2. split; assumption.
+Qed.
+
+Lemma set_data_rate_c speed d c : (speed = 1 \/ speed = 2 \/ speed = 250) ->
+  exists d', set_data_rate CB speed d c = (Ok tt, d', cset c 6 (rate_value (creg c 6) speed)).
+Proof.
+  intros Hs. unfold set_data_rate.
+  replace (negb ((speed =? 1) || (speed =? 2) || (speed =? 250))) with false
+    by (destruct Hs as [->|[->| ->]]; reflexivity).
+  cbv iota. fold (rate_bits speed).
+  mstep lia. change (Z.to_N 6) with 6%N. rewrite (cread_plain c 6) by reflexivity. cbn [hd].
+  pose proof (rate_x_range (creg c 6) speed Hs) as Hr.
+  mstep lia. rewrite reg_write_c by lia. eexists. f_equal.
+Qed.
+
+Lemma set_data_rate_rejects speed d c : ~ (speed = 1 \/ speed = 2 \/ speed = 250) ->
+  set_data_rate CB speed d c = (Exn ValueError, d, c).
+Proof.
+  intro H. unfold set_data_rate.
+  replace (negb ((speed =? 1) || (speed =? 2) || (speed =? 250))) with true; [reflexivity|].
+  symmetry. apply negb_true_iff. apply orb_false_iff. split; [apply orb_false_iff; split|]; apply Z.eqb_neq; intro; apply H; auto.
+Qed.
+
+Theorem set_data_rate_world me speed d w :
+  (me < length (radios w))%nat -> (speed = 1 \/ speed = 2 \/ speed = 250) ->
+  exists d1 w1, set_data_rate (WB me) speed d w = (Ok tt, d1, w1)
+    /\ cview (get_radio w1 me) = cset (cview (get_radio w me)) 6 (rate_value (creg (cview (get_radio w me)) 6) speed)
+    /\ (forall j, j <> me -> cview (get_radio w1 j) = cview (get_radio w j)).
+Proof.
+  intros Hme Hs. destruct (set_data_rate_c speed d (cview (get_radio w me)) Hs) as (d' & E).
+  destruct (sim_run me _ _ d w (sim_set_data_rate me speed) Hme _ _ _ E) as (d1 & w1 & E1 & _ & Hcv & Hf & _).
+  exists d1, w1. repeat split; assumption.
+Qed.
+
+Theorem set_data_rate_world_rejects me speed d w :
+  (me < length (radios w))%nat -> ~ (speed = 1 \/ speed = 2 \/ speed = 250) ->
+  exists d1 w1, set_data_rate (WB me) speed d w = (Exn ValueError, d1, w1)
+    /\ (forall j, cview (get_radio w1 j) = cview (get_radio w j)).
+Proof.
+  intros Hme Hc. pose proof (set_data_rate_rejects speed d (cview (get_radio w me)) Hc) as E.
+  destruct (sim_run me _ _ d w (sim_set_data_rate me speed) Hme _ _ _ E) as (d1 & w1 & E1 & _ & Hcv & Hf & _).
+  exists d1, w1. split; [exact E1|]. intro j. destruct (Nat.eq_dec j me) as [->|Hj]; [exact Hcv|apply Hf; exact Hj].
+Qed.
+
+(* ---- crc = length (any integer, clamped to 0..2): CONFIG bits 3,2 (EN_CRC, CRCO) := 00 | 10 | 11, the other bits
+   from the object's cached CONFIG (which mirrors the register: C09_enter / HInv) ---- *)
+Definition crc_bits (length : Z) : Z :=
+  let l := Z.min 2 (Z.max 0 length) in if l =? 0 then 0 else Z.shiftl (l + 1) 2.
+Definition crc_value (cfg0 length : Z) : N := N.land (Z.to_N (Z.lor (Z.land cfg0 115) (crc_bits length))) 127.
+
+Lemma crc_bits_in length : In (crc_bits length) [0; 8; 12].
+Proof.
+  unfold crc_bits. cbv zeta.
+  assert (H : Z.min 2 (Z.max 0 length) = 0 \/ Z.min 2 (Z.max 0 length) = 1 \/ Z.min 2 (Z.max 0 length) = 2) by lia.
+  destruct H as [->|[->| ->]]; cbn; auto.
+Qed.
+
+Lemma crc_value_bits cfg0 length : 0 <= cfg0 <= 255 ->
+  0 <= Z.lor (Z.land cfg0 115) (crc_bits length) <= 255
+  /\ N.land (crc_value cfg0 length) 12 = Z.to_N (crc_bits length)
+  /\ N.land (crc_value cfg0 length) 115 = N.land (Z.to_N cfg0) 115.
+Proof.
+  intros Hc. unfold crc_value.
+  pose proof (sweep_byte (fun v => forallb (fun s =>
+                 (0 <=? Z.lor (Z.land v 115) s) && (Z.lor (Z.land v 115) s <=? 255)
+                 && (N.land (N.land (Z.to_N (Z.lor (Z.land v 115) s)) 127) 12 =? Z.to_N s)%N
+                 && (N.land (N.land (Z.to_N (Z.lor (Z.land v 115) s)) 127) 115 =? N.land (Z.to_N v) 115)%N) [0; 8; 12])
+                         ltac:(vm_compute; reflexivity) cfg0 Hc) as H.
+  cbv beta in H. rewrite forallb_forall in H. specialize (H _ (crc_bits_in length)).
+  apply andb_true_iff in H. destruct H as [H H3]. apply andb_true_iff in H. destruct H as [H H2].
+  apply N.eqb_eq in H2. apply N.eqb_eq in H3. split; [apply range_of_bool; exact H|]. split; assumption.
+Qed.
+
+Lemma set_crc_c length d c : 0 <= d_config d <= 255 ->
+  exists d', set_crc CB length d c = (Ok tt, d', cset c 0 (crc_value (d_config d) length)).
+Proof.
+  intros Hd. unfold set_crc. cbv zeta. fold (crc_bits length).
+  destruct (crc_value_bits (d_config d) length Hd) as (Hr & _).
+  mstep lia. mstep lia. rewrite reg_write_c by lia. eexists. f_equal.
+Qed.
+
+Theorem set_crc_world me length d w :
+  (me < List.length (radios w))%nat -> 0 <= d_config d <= 255 ->
+  exists d1 w1, set_crc (WB me) length d w = (Ok tt, d1, w1)
+    /\ cview (get_radio w1 me) = cset (cview (get_radio w me)) 0 (crc_value (d_config d) length)
+    /\ (forall j, j <> me -> cview (get_radio w1 j) = cview (get_radio w j)).
+Proof.
+  intros Hme Hd. destruct (set_crc_c length d (cview (get_radio w me)) Hd) as (d' & E).
+  destruct (sim_run me _ _ d w (sim_set_crc me length) Hme _ _ _ E) as (d1 & w1 & E1 & _ & Hcv & Hf & _).
+  exists d1, w1. repeat split; assumption.
+Qed.
